@@ -3,10 +3,15 @@
 //! usage: simlab <ID> [--tier quick|thorough] [--seed N]
 //!        simlab --replay <file>
 
+#[allow(unused_imports, unused_macros, dead_code, unexpected_cfgs)]
+#[path = "/repo/nexosim/src/loom_exports.rs"]
+mod loom_exports;
+
 mod core;
 mod fclass;
 mod lowprops;
 mod mclass;
+mod qprops;
 mod refsim;
 mod runner;
 mod sclass;
@@ -15,6 +20,7 @@ mod sprops;
 use fclass::*;
 use lowprops::*;
 use mclass::*;
+use qprops::*;
 use runner::*;
 use sprops::*;
 
@@ -151,6 +157,7 @@ fn rule_for(prop: &str) -> &'static str {
         "C04" => "class-M cases on ST (LIFO/FIFO/random picks) and MT (4, 8, 16 workers, seeded delays at executor protocol points); oracle = at every Ok return each begun handler has ended, handler/sink multisets == expansion (hence identical across executors), acyclic benches never stall; non-trivial = >=3 models active in one command AND a suspended port operation (MT: AND >=2 worker threads ran handlers); distinct = hash of the JSON case",
         "C05" => "class-M cases; oracle = per-model busy flag (swap at handler entry) and strict Begin/Op/End nesting of every model's records in the global stamp order, init included; non-trivial = a model ran >=2 handlers in one command AND (a suspended operation OR handlers of that model on >=2 threads); distinct = hash of the JSON case",
         "C06" => "class-M cyclic cases (loops, self queries, orphan mailboxes, sub-models) kicked off by process_* and by init, plus acyclic cases that must never report a stall; oracle = mailbox accounting at quiescence: queued(X) = min(capacity(X), started sends to X - handlers begun by X), Deadlock must list exactly the simulation's models with queued>0 by qualified name and size, MessageLoss(n) only when all n sit in orphan mailboxes, Ok iff nothing is queued; non-trivial = the run ended in Deadlock/MessageLoss, or completed with >=3 active models and a suspended operation; distinct = hash of the JSON case",
+        "C12" => "c12-queue-seq: generated push/pop/len sequences (1-600 ops, capacities 1-69, one close at a generated position) on the real channel/queue.rs against a VecDeque model (Full gives the message back, Closed after close, accepted messages stay receivable, len() == held, never above capacity); non-trivial = a push met a full queue AND the ring buffer wrapped around. c12-queue-mpsc: 1-3 producer threads pushing 1-3000 numbered messages each with retry on Full, one consumer; per-producer FIFO, exactly once, nothing accepted is lost (also when the consumer closes the queue while producers are pushing), len() == 0 once drained, Closed after close; non-trivial = >=2 producers AND a producer met a full queue; distinct = hash of the JSON case",
         "C14" => "class-M cases with 0-6 repliers per requestor (plain/map/filter_map) and with connections added between commands through detached clones of the models' output ports; oracle = reply list of every query == (replier, reply id computed from the mapped request, via) in connection order, process_query reply, and handler multisets that include deliveries through clone-added connections; non-trivial = a query with >=2 repliers and >=1 filtered out, or a clone-added connection in a case with >2 handlers; distinct = hash of the JSON case",
         "C16" => "class-M hierarchical cases (sub-models to depth 3+, empty names, init scripts that send events and queries); oracle = exactly one init per model during SimInit::init, before any message of that model, never later; messages sent before the recipient's init are in the expansion multiset; Context::name()/error reports use parent.child; non-trivial = sub-models present AND an init that sends to another model; distinct = hash of the JSON case",
         "C17" => "c17-sink-api: generated write/read/drain/open/close sequences (1-80 ops, 3 writer clones, capacities 1-39) on EventBuffer and EventSlot against a VecDeque/Option model; non-trivial = buffer overflowed (and capacity>1 or a write while closed) / slot overwritten then read then empty. c17-sim: class-M cases, sink content per (model, output) must be in sending order; non-trivial = a sink holds >=2 sends of one output; distinct = hash of the JSON case",
@@ -167,6 +174,11 @@ fn assumptions_for(prop: &str) -> Vec<&'static str> {
             "RefSim (simlab/src/refsim.rs) encodes the documented semantics correctly",
             "the scripted model Node logs faithfully (stamps from one global atomic counter)",
             "multi-threaded runs sample schedules; they do not enumerate them",
+        ],
+        "C12" => vec![
+            "the VecDeque reference model of a bounded FIFO with close",
+            "real-thread runs on x86 sample interleavings under a strong hardware memory model: missing Acquire/Release orderings are out of reach",
+            "the receiver/sender wake-up pairing of channel.rs is exercised only through the simulated benches of C03/C04/C06",
         ],
         "C20" => vec!["the linear reference queue in simlab/src/lowprops.rs is correct", "sequences are sampled, not enumerated"],
         "C11" | "C19" => vec![
@@ -220,6 +232,12 @@ fn run_property(prop: &'static str, tier: &str, seed: u64) -> i32 {
             }
             core::set_delay_mode(0, seed);
         }
+        "C12" => {
+            let n = ctx.n(150_000, 4_000_000);
+            ctx.run(&QSeqSub, n, 16);
+            let n = ctx.n(3000, 60_000);
+            ctx.run(&QMpscSub, n, 5);
+        }
         "C20" => {
             let n = ctx.n(150_000, 4_000_000);
             ctx.run(&PqSub, n, 16);
@@ -251,8 +269,8 @@ fn replay(path: &str) -> i32 {
     let prop = v["property"].as_str().unwrap_or("").to_string();
     let sub = v["sub"].as_str().unwrap_or("").to_string();
     let case = &v["case"];
-    let props: [&'static str; 17] = [
-        "C01", "C07", "C08", "C09", "C10", "C18", "C02", "C03", "C04", "C05", "C06", "C14", "C16", "C17", "C20", "C11", "C19",
+    let props: [&'static str; 18] = [
+        "C01", "C07", "C08", "C09", "C10", "C18", "C02", "C03", "C04", "C05", "C06", "C14", "C16", "C17", "C20", "C11", "C19", "C12",
     ];
     let mode = std::env::var("VERIF_DELAY_MODE").ok().and_then(|s| s.parse().ok()).unwrap_or(1);
     core::set_delay_mode(mode, 1);
@@ -274,6 +292,12 @@ fn replay(path: &str) -> i32 {
             if s.name == sub {
                 return replay_one(&s, p, case, path);
             }
+        }
+        if sub == "c12-queue-seq" {
+            return replay_one(&QSeqSub, p, case, path);
+        }
+        if sub == "c12-queue-mpsc" {
+            return replay_one(&QMpscSub, p, case, path);
         }
         if sub == "c17-sink-api" {
             return replay_one(&SinkSub, p, case, path);
